@@ -477,7 +477,9 @@ def nontrivial(c):
     return any(cell["layout"] and (cell["layout"]["shapes"] or cell["layout"]["insts"]) or cell["abs"] for cell in c["plib"]["cells"])
 
 def run(chk, replay=None):
-    chk.proof_leg(["Raw/RawProtoCheck.vo"], "Properties/C14.v", ["Raw/RawProto_proofs.v"], "Properties.C14")
+    chk.proof_leg(["Raw/RawProtoCheck.vo"], "Properties/C14.v",
+                  ["Raw/RawProtoBase_proofs.v", "Raw/RawProtoImport_proofs.v", "Raw/RawProtoOrder_proofs.v", "Raw/RawProtoTotal_proofs.v",
+                   "Raw/RawProtoExport_proofs.v", "Raw/RawProtoBack_proofs.v", "Raw/RawProto_proofs.v"], "Properties.C14")
     chk.assumptions += [
         "Ptr<Cell> targets are indices into the library's own cell list (libraries closed under instantiation); locks not modelled",
         "LayerKey = slot index (no layer is ever removed); Layers.nums/names and Layer.purps/nums are derived from the sequence of add / add_purpose calls",
